@@ -700,7 +700,7 @@ class C31(C.Check):
                 res.add_failing(sig, what, inp)
             if len(res.failing) >= 4:
                 break
-        if len(res.failing) < 4:
+        if not res.failing:
             for sig, what, inp in direct_failures_extra(budget)[:3]:
                 res.add_failing(sig, what, inp)
         if budget > 1 and not res.failing:
